@@ -262,7 +262,8 @@ pub fn raw_prog(c: &mut Cur) -> c02::RawProg {
 pub fn pair(c: &mut Cur) -> c14::Pair {
     let s1 = c.style();
     let s2 = c.style();
-    let prog = match c.below(6) {
+    let prog = match c.below(7) {
+        6 => c14::Prog::Rel(c03::clamp_reachable(rel_case(c))),
         0 => c14::Prog::Layout(raw_prog(c)),
         1 => c14::Prog::Expr(tree_case(c)),
         2 => {
